@@ -242,6 +242,17 @@ def run(ck):
     # ---- the property on the real code
     cases = conforming_cases(ck, L, G, per_type=ck.n(2, 6), embed_per_type=ck.n(1, 4), n_docs=ck.n(25, 200))
     rng = ck.rng
+    if not iok:
+        # steer the generator to the classes named by the broken agreement obligations (and their subclasses)
+        dg = c03.diagnose(ck, L)
+        ck.extra["agreement_diagnosis"] = dg
+        hot = set()
+        for c in (dg or {}).get("disagree_val", []) + [c for c in (dg or {}).get("disagree_exp", []) if c != "GateKS"]:
+            hot.update([c] + c03.descendants(L, c))
+        for c in sorted(hot)[:40]:
+            for j in range(10):
+                cases.append({"tree": G.tree(c, 2, rich=(j % 2 == 0), force={"include": 0} if c == L.S["root"][1] else None),
+                              "tag": "probe_" + c, "doc": False, "type": c, "role": "root", "depth": 0})
     for i, cs in enumerate(cases):
         if i % ck.n(2, 1) == 0:
             cs["mut"] = {"kind": rng.choice(MUTS), "seed": rng.randrange(1 << 30)}
